@@ -1098,3 +1098,147 @@ def target_to_stack():
 
 def targets():      # noqa: F811
     return [target_to_drawing(), target_circuitikz(), target_to_stack()]
+
+
+# ------------------------------------------------------------------------------------------------ folds over the children (any number)
+_targets_before_folds = targets
+
+
+def target_child_folds():
+    """`Series.to_sympy`, `Parallel.to_sympy` and `Series._impedance` for ANY number of children (the contracts of C01/C20 on
+    symbolic values cover two and three): the result is the fold over the direct children, each child contributing exactly once,
+    in order -- sum of the children's expressions (series), reciprocal of the sum of their reciprocals (parallel), sum of their
+    impedances -- with 0 for an empty connection; every child is asked with the SAME `substitute` flag and the SAME identifier
+    map (an element with its own identifier out of that map), a container is evaluated with its values and sub-circuits, a plain
+    element with its values, a connection with the frequencies alone.  Expressions and impedances are abstract numbers; the real
+    methods run by CPython with the loop over the children cut at the invariant `accumulator == partial fold`."""
+    def run(sess: Session):
+        sess.assumptions.append(H.TREE_ASSUMPTION)
+        sess.assumptions.append("sympy expressions / numpy arrays form a field under + and / (the fold is stated over abstract numbers)")
+        space = H.NodeSpace(["Container"], generic_element="PlainElement")
+        Container = space.element_classes["Container"]
+        ns = H.base_namespace(space)
+        ns["isinstance"] = _isinstance(space)
+        ns["Container"] = Container
+        X = z3.Function("value_of_child", NodeS, R)
+        psum = z3.Function("partial_fold", NodeS, I, R)
+        st: Dict[str, Any] = {}
+        counts = {"paths": 0}
+        asked: List[Any] = []
+
+        class Ids(dict):
+            def __init__(self, tag):
+                super().__init__()
+                self.tag = tag
+
+            def __getitem__(self, e):
+                return ("identifier of", e.t.sexpr(), self.tag)
+
+        def term(self, inverse):
+            return 1 / X(self.t) if inverse else X(self.t)
+
+        def ask_ids_ok(a2):
+            ids = st["ids"]
+            return isinstance(a2, Ids) and (a2.tag == "given" if ids is not None else a2.tag == ("generated", False))
+
+        def conn_to_sympy(self, substitute=False, identifiers=None):
+            c = ctx()
+            lab = st["label"]
+            c.check(f"{lab}: every child is asked with the caller's substitute flag", z3.BoolVal(substitute is st["sub_flag"]), "call-pre")
+            c.check(f"{lab}: connections and containers get the shared identifier map (the given one, or generate_element_identifiers(running=False) of this connection)", z3.BoolVal(ask_ids_ok(identifiers)), "call-pre")
+            return Rv(X(self.t))
+
+        def elem_to_sympy(self, substitute=False, identifier=-1, identifiers=None):
+            c = ctx()
+            lab = st["label"]
+            c.check(f"{lab}: every child is asked with the caller's substitute flag", z3.BoolVal(substitute is st["sub_flag"]), "call-pre")
+            if identifiers is not None:
+                c.check(f"{lab}: connections and containers get the shared identifier map (the given one, or generate_element_identifiers(running=False) of this connection)", z3.BoolVal(ask_ids_ok(identifiers)), "call-pre")
+            else:
+                ids = st["ids"]
+                okid = isinstance(identifier, tuple) and identifier[:2] == ("identifier of", self.t.sexpr()) and (identifier[2] == "given" if ids is not None else identifier[2] == ("generated", False))
+                c.check(f"{lab}: an element gets its own identifier out of the shared map", z3.BoolVal(okid), "call-pre")
+            return Rv(X(self.t))
+
+        def conn_impedance(self, f):
+            ctx().check(f"{st['label']}: every child is evaluated at the caller's frequencies", z3.BoolVal(f is st["f"]), "call-pre")
+            return Rv(X(self.t))
+
+        def elem_impedance(self, f, **kw):
+            c = ctx()
+            c.check(f"{st['label']}: every child is evaluated at the caller's frequencies", z3.BoolVal(f is st["f"]), "call-pre")
+            is_cont = space.class_of(self) is Container
+            want_kw = {"values of": self.t.sexpr(), **({"subcircuits of": self.t.sexpr()} if is_cont else {})}
+            c.check(f"{st['label']}: an element is evaluated with its own values (a container also with its own sub-circuits)", z3.BoolVal(kw == want_kw), "call-pre")
+            return Rv(X(self.t))
+        space.Connection.to_sympy = conn_to_sympy
+        space.Element.to_sympy = elem_to_sympy
+        space.Connection._impedance = conn_impedance
+        space.Element._impedance = elem_impedance
+        space.Element.get_values = lambda self: {"values of": self.t.sexpr()}
+        space.Element.get_subcircuits = lambda self: {"subcircuits of": self.t.sexpr()}
+        space.Connection.generate_element_identifiers = lambda self, running=False: Ids(("generated", running))
+        ns.update({"sympify": lambda s_: Rv(z3.RealVal(int(s_))), "_is_boolean": lambda x: isinstance(x, bool), "zeros": lambda *a, **k: Rv(z3.RealVal(0)),
+                   "ComplexImpedance": "ComplexImpedance", "complex": lambda a=0, b=0: 0})
+
+        class Freq:
+            shape = ("n",)
+
+            def __rmul__(self, o):
+                return Rv(z3.RealVal(0)) if o == 0 else NotImplemented
+        specs = H.LoopSpecs()
+        vc = H.VC(specs, space)
+
+        def make_inv(varname, inverse):
+            def inv(env):
+                n = st["n"]
+                acc = H._to_real(H._z(env.loc[varname]))
+                return [("the accumulator is the fold over the children visited so far", acc == psum(n, env.i))]
+            return inv
+
+        def step_axiom(n, i, inverse):
+            c = child(n, i)
+            return psum(n, i + 1) == psum(n, i) + ((1 / X(c)) if inverse else X(c))
+        no_raise = make_no_raise("circuit/series")
+        cases = [("circuit/series", "Series.to_sympy", "expr", False, "sympy"), ("circuit/parallel", "Parallel.to_sympy", "expr", True, "sympy"),
+                 ("circuit/series", "Series._impedance", "result", False, "impedance")]
+        for module, qual, acc_name, inverse, what in cases:
+            label = qual
+            specs.inv[(label, 1)] = make_inv(acc_name, inverse)
+            real = H.build_function(core.find_def(module, qual), ns, vc, label=label)
+            k = H.K_SERIES if qual.startswith("Series") else H.K_PARALLEL
+
+            def go(c, real=real, k=k, label=label, inverse=inverse, what=what):
+                counts["paths"] += 1
+                del asked[:]
+                t = z3.Const("node", NodeS)
+                i0 = z3.Int("i0")
+                c.assume(kind(t) == k, z3.Not(H.is_wire(t)), nchild(t) >= 0, psum(t, 0) == 0)
+                c.assume(z3.ForAll([i0], z3.Implies(z3.And(0 <= i0, i0 < nchild(t)), step_axiom(t, i0, inverse)), patterns=[psum(t, i0 + 1), child(t, i0)]))
+                c.assume(z3.ForAll([i0], z3.Implies(z3.And(0 <= i0, i0 < nchild(t)), z3.Or(is_conn(child(t, i0)), space.elem_range(child(t, i0)))), patterns=[child(t, i0)]))
+                n = space.node_of(t)
+                st.update(n=t, label=label)
+                if what == "sympy":
+                    sub_flag = c.decide(z3.Bool("substitute"), "substitute")
+                    ids = Ids("given") if c.decide(z3.Bool("identifiers_given"), "identifiers given") else None
+                    st.update(sub_flag=sub_flag, ids=ids)
+                    ok, out = no_raise(label, lambda: real(n, substitute=sub_flag, identifiers=ids))
+                else:
+                    f = Freq()
+                    st["f"] = f
+                    ok, out = no_raise(label, lambda: real(n, f))
+                if not ok:
+                    return
+                c.canary(f"{label}, at return")
+                total = psum(t, nchild(t))
+                want = (1 / total) if inverse else total
+                res = H._to_real(H._z(out))
+                c.check(f"{label}: the result is the fold over ALL children, each once, in order" + (" (reciprocal of the sum of reciprocals)" if inverse else " (their sum)") + ", 0 for an empty connection",
+                        z3.If(nchild(t) > 0, res == want, res == 0), "post")
+            H.explore(sess, H.tree_axioms(), go)
+        sess.check("cover", [], z3.BoolVal(counts["paths"] >= 12), 0, label=f"paths executed: {counts['paths']}")
+    return ("circuit/series:Series.to_sympy / Parallel.to_sympy / Series._impedance for any number of children", "circuit/series", "Series.to_sympy", run)
+
+
+def targets():      # noqa: F811
+    return _targets_before_folds() + [target_child_folds()]
